@@ -76,6 +76,33 @@ func (m *ctxMachine) do(s CtxStep) (out ctxOut) {
 		return m.v[s.A[i]]
 	}
 	c := &m.c
+	if s.Nil < 0 {
+		// poison of the second kind: under a rounding mode outside the enumeration an inexact operation panics with
+		// a string ("unreachable") from the rounding step: a panic value that is not even an error
+		old := c.Mode()
+		c.SetMode(decimal.RoundingMode(200))
+		defer c.SetMode(old)
+		one, three, sz := new(decimal.Decimal).SetInt64(1), new(decimal.Decimal).SetInt64(3), new(decimal.Decimal)
+		var r *decimal.Decimal
+		switch s.Op {
+		case "add":
+			r = c.Add(sz, one, new(decimal.Decimal).SetMantExp(three, -200))
+		case "sub":
+			r = c.Sub(sz, one, new(decimal.Decimal).SetMantExp(three, -200))
+		case "mul":
+			r = c.Mul(sz, new(decimal.Decimal).SetPrec(300).Quo(one, three), three)
+		case "fma":
+			r = c.FMA(sz, new(decimal.Decimal).SetPrec(300).Quo(one, three), three, one)
+		case "sqrt":
+			r = c.Sqrt(sz, three)
+		default:
+			r = c.Quo(sz, one, three)
+		}
+		if r == sz {
+			out.ret = z // "returned its receiver"
+		}
+		return
+	}
 	switch s.Op {
 	case "add":
 		out.ret = c.Add(z, a(0), a(1))
@@ -160,6 +187,11 @@ func genC19(t *rapid.T) C19Case {
 				s.D = rapid.SampledFrom([]string{"9", "99", "5", "1", "95"}).Draw(t, "init.dhigh")
 			}
 			s.P = uint(len(s.D) + rapid.IntRange(0, 30).Draw(t, "init.p"))
+			if rapid.IntRange(0, 7).Draw(t, "init.pwide") == 0 {
+				// any precision up to MaxPrec, the values around 2^31 and 2^32/k included: under a Context the
+				// operands' own precisions must not matter
+				s.P = h.GenPrecFor(t, "init.pw", len(s.D))
+			}
 			c.Init = append(c.Init, s)
 		}
 	}
@@ -224,6 +256,9 @@ func genC19(t *rapid.T) C19Case {
 				s.A = append(s.A, rapid.IntRange(0, nv-1).Draw(t, "a"))
 			}
 			s.Nil = 1 + rapid.IntRange(0, ar-1).Draw(t, "nil")
+			if rapid.IntRange(0, 2).Draw(t, "pkind") == 0 {
+				s.Nil = -1 // a string panic from the rounding step under an out-of-range mode
+			}
 		case k <= 13:
 			s.Op = "err"
 		case k == 14:
@@ -337,18 +372,26 @@ func checkC19(c C19Case, o *h.Obs) *h.Fail {
 					return h.Failf("latched-touched", "%s modified v%d while an error is latched: %v -> %v", where, j, before[j], after)
 				}
 			}
-		case isArith && s.Nil > 0:
+		case isArith && s.Nil != 0:
 			// a panic that is not ErrNaN must not be swallowed, and must not be latched
 			sawPoison = true
+			what := "the runtime panic of a nil operand"
 			o.Label("poison")
+			if s.Nil < 0 {
+				what = "the string panic of the rounding step under an out-of-range mode"
+				o.Label("poison:string-panic")
+			}
 			if out.panic == nil {
 				if e := m.c.Err(); e != nil {
-					return h.Failf("swallowed", "%s: the runtime panic of a nil operand was swallowed and latched as %T %q", where, e, e)
+					return h.Failf("swallowed", "%s: %s was swallowed and latched as %T %q", where, what, e, e)
 				}
-				return h.Failf("swallowed", "%s: the runtime panic of a nil operand was swallowed", where)
+				return h.Failf("swallowed", "%s: %s was swallowed", where, what)
 			}
 			if _, ok := out.panic.(decimal.ErrNaN); ok {
-				return h.Failf("swallowed", "%s: nil operand reported as ErrNaN", where)
+				return h.Failf("swallowed", "%s: %s reported as ErrNaN", where, what)
+			}
+			if _, isErr := out.panic.(error); s.Nil < 0 && isErr {
+				return h.Failf("INFRA-poison", "%s: expected a string panic, got %T %v", where, out.panic, out.panic)
 			}
 			// the context must still be usable and not latched: checked by the following steps through the model
 		case isArith:
@@ -471,7 +514,7 @@ func checkC19(c C19Case, o *h.Obs) *h.Fail {
 	return nil
 }
 
-const ruleC19 = "rapid state machine: one Context (precision 0..120 (quick) / 600 (thorough), any mode) and four variables with their own precision and mode (finite, zeros, infinities; in one run of four all of them sit at the bottom or at the top end of the exponent range, with shared leading digits, so that differences underflow and sums overflow); steps drawn against the current state from Add/Sub/Mul/Quo/FMA/Sqrt/Neg/Abs/Set (receiver distinct from the operands in 3 of 4 draws, steered now and then to 0/0, Inf-Inf, 0*Inf, Inf/Inf, Sqrt(-x)), Err, SetPrec, SetMode, New/NewInt64/NewUint64/NewInt/NewRat/NewFloat64/NewString/ParseDecimal with valid arguments, and poison steps (a nil operand makes the wrapped operation panic with a runtime error). Model of the context (precision, mode, latched): not latched => result == reference operation rounded to the context's precision and mode and the receiver carries them (aliased receivers: operands first rounded to the context, as documented); NaN => no panic, receiver returned, error latched; latched => every operation returns its receiver and all variables are bit-identical; Err() returns an ErrNaN exactly once and re-arms; poison => the panic propagates and nothing is latched. Non-trivial = a run with a NaN step followed by at least two operations and an Err, or with a poison step."
+const ruleC19 = "rapid state machine: one Context (precision 0..120 (quick) / 600 (thorough), any mode) and four variables with their own precision and mode (finite, zeros, infinities; in one run of four all of them sit at the bottom or at the top end of the exponent range, with shared leading digits, so that differences underflow and sums overflow); steps drawn against the current state from Add/Sub/Mul/Quo/FMA/Sqrt/Neg/Abs/Set (receiver distinct from the operands in 3 of 4 draws, steered now and then to 0/0, Inf-Inf, 0*Inf, Inf/Inf, Sqrt(-x)), Err, SetPrec, SetMode, New/NewInt64/NewUint64/NewInt/NewRat/NewFloat64/NewString/ParseDecimal with valid arguments, and poison steps (a nil operand makes the wrapped operation panic with a runtime error; or, one time in three, an out-of-range rounding mode makes the rounding step of an inexact operation on scratch variables panic with a plain string). Model of the context (precision, mode, latched): not latched => result == reference operation rounded to the context's precision and mode and the receiver carries them (aliased receivers: operands first rounded to the context, as documented); NaN => no panic, receiver returned, error latched; latched => every operation returns its receiver and all variables are bit-identical; Err() returns an ErrNaN exactly once and re-arms; poison => the panic propagates and nothing is latched. Non-trivial = a run with a NaN step followed by at least two operations and an Err, or with a poison step."
 
 var propC19 = &h.Prop[C19Case]{ID: "C19", Rule: ruleC19, Gen: genC19, Check: checkC19, Matchers: map[string]func(C19Case) bool{}}
 
